@@ -102,8 +102,13 @@ func runC06(c *Ctx) {
 				infallible := infallibleIdiom(c, call, 0)
 				_, suppressed := c06Suppress[construct]
 				suppressed = suppressed && !used // the suppression names the one discarding call site
+				if suppressed && construct == "tdx.generateAllPossibleMRTDs→tdx.MRTD" {
+					// the reason given in the table must hold at this site: the same callee was already
+					// called with the same options object and the same image, and its error is known nil here
+					suppressed = repeatsCheckedCall(call, ei)
+				}
 				if !used {
-					if why, ok := c06Suppress[construct]; ok {
+					if why, ok := c06Suppress[construct]; ok && suppressed {
 						c.S.OK("R1", construct, c.pos(call.Pos()), "suppressed (one named symbol): "+why, false)
 					} else if why := infallible; why != "" {
 						c.S.OK("R1", construct, c.pos(call.Pos()), "infallible by construction: "+why, true)
@@ -617,6 +622,34 @@ func isGlobalNamed(v ssa.Value, pkg, name string) bool {
 }
 
 // errKnownNil: block b is dominated by the nil edge of a test of errVal.
+// repeatsCheckedCall: an earlier call of the same callee with identical
+// argument values dominates this one and its error is known nil here.
+func repeatsCheckedCall(call *ssa.Call, ei int) bool {
+	for _, b := range call.Parent().Blocks {
+		for _, in := range b.Instrs {
+			c2, ok := in.(*ssa.Call)
+			if !ok || c2 == call || c2.Call.StaticCallee() != call.Call.StaticCallee() || len(c2.Call.Args) != len(call.Call.Args) {
+				continue
+			}
+			same := true
+			for i := range c2.Call.Args {
+				if c2.Call.Args[i] != call.Call.Args[i] {
+					same = false
+				}
+			}
+			if !same || !b.Dominates(call.Block()) {
+				continue
+			}
+			for _, ref := range *c2.Referrers() {
+				if ex, ok := ref.(*ssa.Extract); ok && ex.Index == ei && errKnownNil(call.Block(), ex) {
+					return true
+				}
+			}
+		}
+	}
+	return false
+}
+
 func errKnownNil(b *ssa.BasicBlock, errVal ssa.Value) bool {
 	if b == nil || errVal == nil {
 		return false
